@@ -116,7 +116,7 @@ where
             let mut ast = AttackStats::default();
             if (e.wrap.is_some() || e.seed_moves) && !e.prog.nonunique {
                 if let Some(actx) = AttackCtx::new(&e.prog, opts.max_bit_len, bud.repair_nodes, 400) {
-                    let n_attacked = if bud.thorough { inputs.len().min(10) } else { 2 };
+                    let n_attacked = if bud.thorough { inputs.len().min(8) } else { 2 };
                     let nb0 = bud.n_boundary.min(inputs.len());
                     let nr0 = (nb0 + bud.n_random).min(inputs.len());
                     // random operands first, then boundary classes and specials
@@ -167,8 +167,21 @@ fn big_jobs(thorough: bool, only: &Option<String>) -> Vec<Job> {
             let mut rng = ctx.rng(&format!("c05-inputs-{name}"));
             let wide = e.widths.iter().any(|w| *w >= 1024);
             let (nb, nr) = if wide { (bud.n_boundary.min(4), bud.n_random.min(3)) } else { (bud.n_boundary, bud.n_random) };
-            let inputs = cat_big::gen_inputs(&e, idx, nb, nr, bud.max_specials, &mut rng);
-            let st = check_op(&e.prog, &inputs, &bud.opts, ctx.seed, rep);
+            let mut inputs = cat_big::gen_inputs(&e, idx, nb, nr, bud.max_specials, &mut rng);
+            // very large circuits (k >= 14: wide mod_exp / 2048-bit products): completeness, a few
+            // edits and out-of-domain operands only, so that one entry cannot dominate the run
+            let k = {
+                let rel = OpRel(e.prog.clone());
+                catch_any(|| midnight_zk_stdlib::MidnightCircuit::new(&rel, midnight_proofs::circuit::Value::unknown(), midnight_proofs::circuit::Value::unknown(), Some(bud.opts.max_bit_len)).min_k()).unwrap_or(0)
+            };
+            let mut opts_here = bud.opts.clone();
+            if k >= 14 {
+                opts_here.max_positions = 1;
+                opts_here.ars = None;
+                inputs.truncate(8);
+                rep.count("biguint.large_circuit_reduced_budget");
+            }
+            let st = check_op(&e.prog, &inputs, &opts_here, ctx.seed, rep);
             let mut ast = AttackStats::default();
             if e.attack.is_some() || e.seed_moves {
                 if let Some(actx) = AttackCtx::new(&e.prog, bud.opts.max_bit_len, bud.repair_nodes, 600) {
@@ -220,10 +233,10 @@ fn main() {
     );
     let thorough = ctx.tier == Tier::Thorough;
     let mut opts = OpOptions::new("C05", thorough);
-    opts.max_positions = if thorough { 5 } else { 2 };
+    opts.max_positions = if thorough { 4 } else { 2 };
     opts.ars = Some(if thorough {
         ArsBudget {
-            restarts: 4,
+            restarts: 3,
             nodes_per_restart: 1000,
             max_changed: 32,
         }
@@ -234,16 +247,21 @@ fn main() {
             max_changed: 24,
         }
     });
+    // the driver's own free-instance seed moves compare raw instance vectors; for emulated elements a
+    // different *well-formed representation of the same residue* is legitimate witness freedom, so
+    // C05 runs its own seed moves with a semantic comparison (c05_ops/attack.rs) instead
+    opts.seed_cells = 0;
+    opts.seed_inputs = 0;
     let mut opts_nonunique = opts.clone();
     opts_nonunique.ars = None;
     opts_nonunique.max_positions = 0;
     let bud = Budgets {
         thorough,
-        n_boundary: if thorough { 16 } else { 1 },
-        n_random: if thorough { 12 } else { 1 },
+        n_boundary: if thorough { 12 } else { 1 },
+        n_random: if thorough { 8 } else { 1 },
         max_specials: if thorough { 64 } else { 3 },
-        seed_cells: if thorough { 120 } else { 8 },
-        repair_nodes: if thorough { 4000 } else { 600 },
+        seed_cells: if thorough { 80 } else { 8 },
+        repair_nodes: if thorough { 3000 } else { 600 },
         opts,
         opts_nonunique,
     };
